@@ -93,12 +93,14 @@ class AsyncChannel(AsyncIterable[T]):
         self._waiting_receivers += 1
         try:
             result = await self._queue.get()
-            if result is self.__flush:
-                raise StopAsyncIteration
-            return result
         finally:
             self._waiting_receivers -= 1
-            self._queue.task_done()
+        # Only an item that was actually taken may be marked as done: if get() is
+        # cancelled nothing was taken.
+        self._queue.task_done()
+        if result is self.__flush:
+            raise StopAsyncIteration
+        return result
 
     def closed(self) -> bool:
         """
@@ -164,12 +166,14 @@ class AsyncChannel(AsyncIterable[T]):
         self._waiting_receivers += 1
         try:
             result = await self._queue.get()
-            if result is self.__flush:
-                return None
-            return result
         finally:
             self._waiting_receivers -= 1
-            self._queue.task_done()
+        # Only an item that was actually taken may be marked as done: if get() is
+        # cancelled nothing was taken.
+        self._queue.task_done()
+        if result is self.__flush:
+            return None
+        return result
 
     def close(self):
         """
